@@ -218,3 +218,18 @@ PROPS["C15"] = {
     "level_text": "seeded search over rule sets x (method, path, query, peer address), observed at the upstream",
     "assumptions": COMMON_ASSUMPTIONS + ["paths are generated free of percent-encoding so that 'the request path' is unambiguous"],
 }
+
+PROPS["C16"] = {
+    "level": "exploration",
+    "quick_runs": 800, "quick_budget_s": 150, "thorough_budget_s": 600,
+    "rule": "TWIN RUNS: one run = one tape executed twice in two fresh bubbles with the same seeded crypto/rand stream: world (reverse-proxy on/off, configured real-client-IP header, "
+            "trusted networks, skip-auth routes, cookie domains, whitelist domains, redirect-url options, store) + 6-11 unauthenticated requests over 13 endpoint targets and 6 peer "
+            "addresses + a real login + 3-6 authenticated requests + optional refresh + sign-out; in the second execution 60% of the requests additionally carry 1-4 forwarding headers "
+            "(X-Forwarded-Host/Proto/Uri/For/Port/Prefix, X-Real-IP, X-ProxyUser-IP, X-Envoy-External-Address, CF-Connecting-IP, Forwarded, X-Original-URL; hosts on/off the whitelist and "
+            "cookie domains, trusted/untrusted addresses, skip-auth and proxy-prefixed URIs; lower-cased names) drawn from a forked tape; reverse-proxy off: the per-request transcripts "
+            "(status, Location, login-URL redirect_uri, every Set-Cookie byte, body hash, identity response headers, upstream-visible request minus the added headers) must be IDENTICAL; "
+            "reverse-proxy on: only IP headers other than the configured one are added and the transcripts must be identical; non-trivial = at least one request was perturbed; "
+            "distinct = distinct world key + event hashes of both executions",
+    "level_text": "relational check over twin executions of one seeded deterministic world differing only in forwarding headers",
+    "assumptions": COMMON_ASSUMPTIONS + ["X-Auth-Request-Redirect and the request-id header are honoured in every mode by design and are not part of the twin delta"],
+}
